@@ -175,14 +175,26 @@ def tensor_grad(E):
         E.cover(shape)
         return
     # jacobian stacks the gradients in the order of the variables
-    J = d.jacobian([y, x]).eval()
-    refJ = diff_entries(flat(d.eval()), y) + diff_entries(flat(d.eval()), x)
-    sym.prove_equal(E, flat(J), refJ, "C15:tensor:jacobian:" + shape)
+    for vs in ([y, x], [x, y, x]):
+        J = d.jacobian(vs).eval()
+        refJ = []
+        for v_ in vs:
+            refJ += diff_entries(flat(d.eval()), v_)
+        sym.prove_equal(E, flat(J), refJ, "C15:tensor:jacobian:" + shape,
+                        info=str(vs))
     # Tensor.grad / jacobian on the evaluated tensor
     t = d.eval()
     sym.prove_equal(E, flat(t.grad(var)), ref, "C15:tensor:Tensor.grad")
     z = sympy.Symbol('zz', real=True)
     E.check(len(d.grad(z).terms) == 0, "C15:tensor:grad-of-constant-not-empty")
+    for single in (f, v):
+        gz = single.grad(z)
+        E.check(isinstance(gz, tensor.Sum) or hasattr(gz, 'terms'),
+                "C15:tensor:box-grad-of-constant-not-empty-sum",
+                info=repr(gz)[:200])
+        if hasattr(gz, 'terms'):
+            E.check(len(gz.terms) == 0,
+                    "C15:tensor:box-grad-of-constant-not-empty-sum")
     E.cover(shape)
 
 
